@@ -30,6 +30,25 @@ MUTATIONS = [
     ("serde-clamp-overrun", S, '            raise ValueError("buffer overrrun")', "            return 0", ["C16"]),
     ("serde-str-clamp", S, "        return [self.read_word(8) for _ in range(bytes)]", "        return [self.read_word(8) for _ in range(min(bytes, len(self.buffer) - (self.bitaddr >> 3)))]", ["C16"]),
     ("serde-enum-width", S, "    length = fcp.get_enum(type.name).unwrap().get_packed_size()\n    buffer.push_word(data, length)", "    length = fcp.get_enum(type.name).unwrap().get_packed_size() + 1\n    buffer.push_word(data, length)", ["C01", "C02"]),
+    ("layout-unsorted", E, "for field in sorted(struct.fields, key=lambda field: field.field_id):", "for field in struct.fields:", ["C04"]),
+    ("layout-reverse", E, "sorted(struct.fields, key=lambda field: field.field_id)", "sorted(struct.fields, key=lambda field: field.field_id, reverse=len(struct.fields) > 3)", ["C04"]),
+    ("layout-bitstart-not-reset", E, "        self.encoding = []\n        self.bitstart = 0\n", "        self.encoding = []\n", ["C04"]),
+    ("layout-encoding-not-reset", E, "        self.encoding = []\n        self.bitstart = 0\n", "        self.bitstart = 0\n", ["C04"]),
+    ("layout-enum-width-plus1", E, "return int(fcp.get_enum(type.name).unwrap().get_packed_size())", "return int(fcp.get_enum(type.name).unwrap().get_packed_size()) + 1", ["C04"]),
+    ("enum-packed-size-ceil", "src/fcp/specs/enum.py", "return math.floor(math.log2(m) + 1)", "return math.ceil(math.log2(m)) if m > 2 else 2", ["C04", "C01"]),
+    ("layout-unroll-short", E, "        for i in range(type.size):\n            derived_field", "        for i in range(type.size - (type.size > 2)):\n            derived_field", ["C04"]),
+    ("layout-array-width", E, "return int(type.size * self._get_type_length(fcp, type.underlying_type))", "return int(self._get_type_length(fcp, type.underlying_type)) * max(type.size, 2)", ["C04"]),
+    ("layout-options-leak", E, "extension.get_signal(field.name)", "(extension.signals and Some(extension.signals[0]) or extension.get_signal(field.name))", ["C04"]),
+    ("layout-nested-prefix-lost", E, 'prefix=prefix + field.name + "::",', 'prefix=field.name + "::",', ["C04"]),
+    ("verifier-typenames-structs-only", V, "type_names = [type.name for type in fcp.get_types()]", "type_names = [type.name for type in (fcp.structs if type in fcp.structs else fcp.enums)]", ["C09"]),
+    ("verifier-no-device-category", V, '            "device",\n            "uncategorized",', '            "uncategorized",', ["C09"]),
+    ("verifier-device-first-service-only", V, "                    return error(\n                        f'Service", "                    break\n                    return error(\n                        f'Service", ["C09"]),
+    ("verifier-enum-values-skip-negative", V, "enumeration_names = [enumeration.value for enumeration in enum.enumeration]", "enumeration_names = [abs(enumeration.value) for enumeration in enum.enumeration]", ["C09"]),
+    ("verifier-impl-dup-ignores-protocol-default", V, "if impls.count((left.name, left.protocol)) > 1:", 'if left.protocol != "default" and impls.count((left.name, left.protocol)) > 1:', ["C09"]),
+    ("dbc-ids-per-bus", "plugins/fcp_dbc/fcp_dbc/generator.py", 'impl.fields.get("id") for impl in fcp.impls if impl.protocol == "can"', 'impl.fields.get("id") for impl in fcp.impls if impl.protocol == "can" and impl.name != impl.type', ["C09"]),
+    ("canc-size-72", "plugins/fcp_can_c/fcp_can_c/generator.py", "if size > 64:", "if size > 72:", ["C09"]),
+    ("canc-size-ge", "plugins/fcp_can_c/fcp_can_c/generator.py", "if size > 64:", "if size >= 64:", ["C09"]),
+    ("canc-unknown-struct-ok", "plugins/fcp_can_c/fcp_can_c/generator.py", "            struct = fcp.get_struct(extension.type)\n            if struct.is_nothing():\n                return error(\n                    f\"No matching type for extension", "            struct = fcp.get_struct(extension.type)\n            if struct.is_nothing() and extension.protocol == \"can\":\n                return error(\n                    f\"No matching type for extension", ["C09"]),
     ("serde-array-last-elem", S, "    for i in range(type.size):\n        _encode(buffer, fcp, type.underlying_type, data[i])", "    for i in range(type.size):\n        _encode(buffer, fcp, type.underlying_type, data[min(i, 1)])", ["C01", "C02"]),
 ]
 
